@@ -1,5 +1,6 @@
 """C08 - see DESIGN.md section 5; shared machinery in corecommon.py"""
 from checks import corecommon as cc
+from checks import ctxhist
 
 PID = "C08"
 LEVEL = cc.LEVEL
@@ -7,18 +8,23 @@ BUILDS = cc.BUILDS
 CASE_TIMEOUT = cc.CASE_TIMEOUT
 LEAN_MODULES = ["AsynqModel.Theorems.C08", "AsynqModel.Theorems.SpecC08"]
 THEOREMS = ["AsynqModel.Core." + n for n in (
-    "C08_active_invariant", "C08_active", "C08_creator", "C08_frames", "C08_clean_always", "C08_clean",
-    "C08_active_none_at_top_always", "C08_active_none_at_top", "C08_guard_resets", "C08_guard_step", "C08_guard_only",
+    "C08_active_invariant_min", "C08_active_min", "C08_creator_min", "C08_frames_min", "C08_clean_always", "C08_clean_min",
+    "C08_active_none_at_top_always", "C08_active_none_at_top_min", "C08_guard_resets", "C08_guard_step", "C08_guard_only",
     "C08_active_always", "Spec_C08_accepts", "Spec_C08_accepts_spec", "Spec_C08_accepts_clean", "Spec_C08_accepts_partial",
     "Spec_C08_live_source")]
-LEAN_MODULES = LEAN_MODULES + ['AsynqModel.Theorems.C08b', 'AsynqModel.Theorems.AuditFixes']
+LEAN_MODULES = LEAN_MODULES + ['AsynqModel.Theorems.C08b', 'AsynqModel.Theorems.AuditFixes', 'AsynqModel.Theorems.SpecC04b']
 THEOREMS = THEOREMS + ["AsynqModel.Core." + n for n in ['C08_no_stale_batch', 'C08_no_stale_batch_trace', 'Spec_C08_accepts_nonasync_free', 'Spec_C08_accepts_nonasync_free_run', 'C08_fresh_state', 'C08_unflushed_is_current', 'C08_leftover_iff', 'C08_dead_entries_invisible', 'C08_fresh_equiv']]
 MIX = [('full',4),('sync',3),('yield_err',1),('nonasync',1)]
 RULE = ("grammar-generated task programs (profiles %s; trees and DAGs of tasks, 1-3 batch kinds with priority overrides "
         "and raising flushes, nested yield structures, errors, try/except, synchronous re-entry, contexts) interpreted on "
         "the real scheduler and replayed in the Lean machine with the implementation's flush choices; non-trivial = at "
         "least 2 tasks and 1 scheduler flush; distinct by hash of (configuration, programs)" % (", ".join(p for p, _ in MIX)))
-TRUSTED = cc.TRUSTED_CORE
+LEAN_MODULES = LEAN_MODULES + ctxhist.WITH_LEAN_MODULES
+THEOREMS = THEOREMS + ["AsynqModel.Contexts." + n for n in ctxhist.WITH_THEOREMS]
+RULE += "; plus " + ctxhist.WITH_RULE
+TRUSTED = cc.TRUSTED_CORE + ["family ctxwith: hand-written Lean model AsynqModel.Contexts.runW (Lib/ContextsWith.lean: with-blocks of a "
+                             "generator, generator.close(), unwinding) tied to the code by the differential run of "
+                             "harness/checks/ctxhist.py only"]
 ASSUMPTIONS = cc.ASSUMPTIONS_CORE
 
 
@@ -28,9 +34,10 @@ def extra(tier, rng):
     import coregen
     res = [coregen.foreign_sync_family(rng) for _ in range(40 if tier == "quick" else 600)]
     res += [{"special": "resetbetween", "resets": r, "sync": sy} for r in (0, 1, 2) for sy in (False, True)]
-    res += [cc.ctxraise_case(w, n, h, sb) for w in ("pause", "resume") for n in (0, 1, 2) for h in (0, 1) for sb in (0, 1)]
+    res += cc.ctxraise_cases(two_hooks=True)
     res += cc.guard_cases(tier, rng)
     res += cc.corefam4.selfawait_cases(tier, cc.fork(rng, "selfawait"))
+    res += ctxhist.with_cases(tier, cc.fork(rng, "ctxwith"))
     return res
 
 
@@ -39,19 +46,27 @@ def plan(tier, seed):
 
 
 def run_case(case):
+    if case.get("special") == "ctxwith":
+        return ctxhist.run(case)
     return cc.run_case_for(PID, case)
 
 
 def shrink(case):
+    if case.get("special") == "ctxwith":
+        return ctxhist.shrink(case)
     return cc.shrink_case(case)
 
 
 def neighbours(case, rng):
+    if case.get("special") == "ctxwith":
+        return ctxhist.neighbours(case, rng)
     return cc.neighbours_case(case, rng, [p for p, _ in MIX])
 
 
 def signature(case, v):
-    return cc.signature_for(case, v)
+    if case.get("special") == "ctxwith":
+        return ctxhist.with_signature(case, v)
+    return cc.signature_for(case, v, PID)
 
 
 def on_crash(r, v):
